@@ -54,6 +54,7 @@ BUDGET = {
     "regsim": {"quick": (4000, 300), "thorough": (200000, 2400)},
 }
 DETERMINISM_SAMPLE = 6
+FIXED_BASE = 10_000_000  # run indices >= FIXED_BASE address an engine's deterministic fixed plans
 
 
 def engine_module(name: str):
@@ -93,7 +94,11 @@ def cmd_worker(a) -> int:
             line = {"i": i, "run_seed": rs}
             t0 = time.time()
             try:
-                plan = eng.generate(random.Random(rs), a.tier)
+                if i >= FIXED_BASE:
+                    plan = eng.fixed_plans(a.tier)[i - FIXED_BASE]
+                    line["fixed_plan"] = i - FIXED_BASE
+                else:
+                    plan = eng.generate(random.Random(rs), a.tier)
                 outcome = eng.execute(plan)
             except core.HarnessError:
                 line["harness_error"] = traceback.format_exc()
@@ -253,10 +258,15 @@ def collect(procs, wall):
 
 def run_engine(prop, engine, tier, seed, runs, n_workers, wall, scratch):
     indices = list(range(runs))
+    eng = engine_module(engine)
+    n_fixed = 0
+    if hasattr(eng, "fixed_plans"):
+        n_fixed = len(eng.fixed_plans(tier))
+        indices = [FIXED_BASE + j for j in range(n_fixed)] + indices
     t0 = time.time()
     main = spawn_workers(prop, engine, tier, seed, indices, n_workers, wall, scratch, "main")
     # determinism probe: same seeds, different worker count, different hash seed, fresh interpreters
-    det_idx = indices[: min(DETERMINISM_SAMPLE, len(indices))]
+    det_idx = indices[: min(2, n_fixed)] + indices[n_fixed : n_fixed + DETERMINISM_SAMPLE]
     det = spawn_workers(prop, engine, tier, seed, det_idx, 2, wall, scratch, "det", hashseed=12345)
     lines, errors = collect(main, wall)
     dlines, derrors = collect(det, wall)
